@@ -418,10 +418,22 @@ impl C02 {
                                         // KF-C02-c: the imbalance fee of an unbalanced deposit is > 100% of each asset's
                                         // deviation and explodes for an asset that is dust next to the others; it can take
                                         // such a reserve to zero, and D of a balance set containing a zero comes out too
-                                        // high. Signature: non-zero swap fee, a reserve of at most 100 smallest units in a
-                                        // pool at least 1000:1 off balance, over-mint below twice the rightful amount.
-                                        if kf.is_none() && !p.info.pool_fees.swap_fee.share.is_zero() && sk >= 1000.0 && before.iter().chain(after.iter()).any(|r| *r <= 100) && lhs <= &rhs * 2 {
-                                            kf = Some("KF-C02-c");
+                                        // high. Signature (mechanism, not magnitude): the pool has a swap fee, the contract's
+                                        // own mint formula WITHOUT the fee stays within the bound, and the fee made the mint
+                                        // larger - which a fee can never rightfully do.
+                                        if kf.is_none() && !p.info.pool_fees.swap_fee.share.is_zero() {
+                                            let mut info0 = p.info.clone();
+                                            info0.pool_fees.swap_fee.share = cosmwasm_std::Decimal::zero();
+                                            let coins = |v: &[u128]| -> Vec<cosmwasm_std::Coin> { p.info.asset_denoms.iter().zip(v.iter()).map(|(d, a)| coin(*a, d.clone())).collect() };
+                                            info0.assets = coins(&before);
+                                            let (o, nw) = (coins(&before), coins(&after));
+                                            let r = std::panic::catch_unwind(std::panic::AssertUnwindSafe(|| pool_manager::helpers::compute_lp_mint_amount_for_stableswap_deposit(&amp, &o, &nw, cosmwasm_std::Uint128::new(sup0), &info0)));
+                                            if let Ok(Ok(Some(m0))) = r {
+                                                let m0 = m0.u128();
+                                                if minted > m0 && bi(m0) * (&d0 - 2) <= rhs {
+                                                    kf = Some("KF-C02-c");
+                                                }
+                                            }
                                         }
                                         rep.failed("ss_mint_bound", kf,
                                             format!("pool {}: minted {minted} LP exceeds supply {sup0} x growth of exact D ({d0} -> {d1}) beyond the 2-unit granularity", t.pool),
